@@ -13,7 +13,10 @@ ENV_BY_TIER = {"quick": {"NUMBA_DISABLE_JIT": "1"}, "thorough": {"NUMBA_DISABLE_
 RULE = ("piecewise-constant histories with 1-8 epochs; sizes and break spacings log-uniform over 12 orders of magnitude "
         "(1e-6..1e6), as short dyadic numbers (exact in binary64) or arbitrary doubles, or of similar magnitude; time vectors "
         "with 0, every break, the doubles next to every break, points inside every epoch and beyond the last break, mapped "
-        "forth and back; gamma (shape 0.3..200, rate placing the mass before, across or after the breaks) for "
+        "forth and back; a 'scale regime' family (3 of 8 histories): 2-5 epochs whose sizes are ALL very large (1e7..1e13) "
+        "or ALL very small (1e-6..1e-2), consecutive sizes differing by factors 1.5..1e4, epochs of comparable coalescent "
+        "duration so the breaks sit on the matching generation scale (some rounded to values like 2e8, 2e10); "
+        "gamma (shape 0.3..200, rate placing the mass before, across or after the breaks) for "
         "gamma_to_natural (each called TWICE on the same object, many calls share one object); about 45% of the valid "
         "histories additionally go through a reuse / argument-form battery: repeated and interleaved transform and gamma "
         "calls on one object with the attributes and the argument arrays compared bit for bit before/after, times passed as "
@@ -21,7 +24,10 @@ RULE = ("piecewise-constant histories with 1-8 epochs; sizes and break spacings 
         "list/tuple/nested/np.float32/scalar float, int, np.float64, np.int64, 0-d, and PopulationSizeHistory(**as_dict()) "
         "rebuilt AFTER all those calls; plus invalid constructor arguments (non-positive / non-finite sizes, wrong lengths, unsorted or "
         "non-positive breaks) and negative times, which must be rejected. Non-trivial: a valid history with >= 2 epochs, or "
-        "a gamma_to_natural call; distinct by content hash")
+        "a gamma_to_natural call; distinct by content hash. Every several-epoch gamma_to_natural result on a history whose "
+        "consecutive sizes are within 1e4 (all scale-regime histories) is compared with the exact (60-digit mpmath) moments "
+        "of the mapped gamma, at a tolerance derived from a forward error bound of the code's own formula (measured on /repo: "
+        "worst observed error 0.04 of the bound over 12000 cases)")
 ASSUME = [
     "scipy.special.gammainc / gamma / loggamma, np.exp / np.log and the float power enter the model as tables of the "
     "values the same calls return (the arithmetic around them is modelled and compared bit for bit)",
@@ -68,12 +74,14 @@ def scale_regime_history(rng, style):
         cand = [x for x in (pop[-1] * f, pop[-1] / f) if lo <= x <= hi]
         pop.append(rng.choice(cand) if cand else (pop[-1] / f if pop[-1] * f > hi else pop[-1] * f))
     if rng.random() < 0.3:                      # round numbers such as 2e8, 2e10, 2e12
-        pop = [float("%.0e" % x) for x in pop]
+        pop = [min(max(float("%.0e" % x), lo), hi) for x in pop]
     unit = 10.0 ** rng.uniform(-1.5, 1.5)       # coalescent duration scale of an epoch
     t, brks = 0.0, []
     for i in range(k - 1):
         t += unit * 10.0 ** rng.uniform(-1, 0.5) * 2 * pop[i]
-        brks.append(float("%.3g" % t) if rng.random() < 0.3 and float("%.3g" % t) > (brks[-1] if brks else 0) else t)
+        if rng.random() < 0.3 and float("%.3g" % t) > (brks[-1] if brks else 0.0):
+            t = float("%.3g" % t)
+        brks.append(t)
     return {"style": style, "pop": [float(x) for x in pop], "brks": [float(x) for x in brks]}
 
 
@@ -547,7 +555,11 @@ def oracle_gamma(ctx, it, res, h):
         if tol_s < 0.05:                 # otherwise the code's own formula has no digits left: nothing to compare
             ctx.tally("gamma/exact-reference")
             if not (K.close(res[0], want[0], rel=tol_s) and K.close(res[1], want[1], rel=tol_r)):
-                ctx.oracle_fail("gamma-moments-exact", "mean/variance differ from the exact moments of the mapped coalescent gamma",
+                tabs = it.get("tabs") or gamma_tables(h, shape, rate)
+                factors = [v for _a, v in tabs[1]] + [v for _r, _s, v in tabs[2]] + [tabs[3][0][2]]
+                edge = any(abs(v) < 1e-290 or abs(v) > 1e290 for v in factors)     # subnormal / near overflow: K-C17-2
+                ctx.oracle_fail("gamma-moments-exact" + (":intermediate-factor-out-of-double-range" if edge else ""),
+                                "mean/variance differ from the exact moments of the mapped coalescent gamma",
                                 dict(rp, expected=want, mean=mn, var=va, tolerance=[tol_s, tol_r]))
                 return
         else:
